@@ -6,6 +6,12 @@ REFMASKED, short ACP arrays, all-missing AF0 records) and (b) real outputs of as
 synthetic datasets (whole files and one record at a time); stdout is parsed independently and compared with the
 Lean model (`atom`).  Oracle: the property statement evaluated directly in Python (`py_block`).
 
+Round 5 (input-shape gaps): alphabet "ACGTN*" (N in REF/ALT, * in ALT; general streams keep <= 4 symbols per site, a
+dedicated stream produces sites with 5 / 6 symbols), NOA-shaped records, partially called GTs with '.' anywhere,
+'.' inside ACP with AFP complete and vice versa, > 4 SNVs / > 4 ALTs, many samples / high ploidy (AC, ACP totals
+>= 100 and >= 1000), two contigs, bgzipped input, header-only input, and pipeline outputs made with
+--prior-frequencies / --filter-input-haplotypes, --sample-pool and call-pedigree on a two-contig dataset.
+
 The model is total on these shapes since the repairs of F8 (no ALT), F9 (monomorphic site), N1 ('.' in ACP/AFP) and
 N2 (PQ printed as 'None'); a crash or a 'None' is classified by `classify_crash` / the PQ oracle under the
 signatures of those defects, so a reverted fix fires them again.
@@ -51,11 +57,15 @@ SIG_F8 = "C20/atomize/no-alt-crash"
 SIG_F9 = "C20/atomize/monomorphic-crash"
 SIG_ACP = "C20/atomize/missing-acp-crash"
 SIG_PQ = "C20/atomize/pq-none"
+# a site with more than four distinct symbols (e.g. A,C,G,T plus N or *): get_sample_snv_ACP has four allele slots
+SIG_FIVE = "C20/atomize/acp-five-alleles"
+FIVE_STREAM = True          # the dedicated stream of records with a 5- / 6-symbol site
 SLACK = Fraction(1, 10 ** 9)
 MCMC = ["--mcmc-steps", "300", "--mcmc-burn", "100"]
 
 HEADER = """##fileformat=VCFv4.3
 ##contig=<ID=chr1,length=100000>
+##contig=<ID=chr2,length=100000>
 ##FILTER=<ID=PASS,Description="All filters passed">
 ##FILTER=<ID=NOA,Description="No observed alleles at locus">
 ##FILTER=<ID=AF0,Description="All alleles have prior allele frequency of zero">
@@ -256,16 +266,52 @@ def parse_model_line(text):
 # --------------------------------------------------------------------------------------
 
 BASES = "ACGT"
-SHAPES = ["normal", "normal", "normal", "dots", "no-snv", "no-alt", "mono", "refmasked", "short-acp", "af0", "zero-acp"]
+ALPHA6 = "ACGTN*"          # N may stand in REF and ALT (reference N), * only in ALT (VCF's spanning-deletion symbol)
+SHAPES = ["normal", "normal", "normal", "dots", "no-snv", "no-alt", "mono", "refmasked", "short-acp", "af0", "zero-acp",
+          "noa", "partial", "partial", "acp-dot", "afp-dot", "alpha", "alpha", "wide"]
+# shapes whose sample columns need both posterior fields
+BOTH_FIELDS = ("acp-dot", "afp-dot")
 
 
-def gen_record(r, shape, samples, ploidy, fields, pos, idx):
-    """one haplotype record line of the given shape; `fields` subset of {ACP, AFP, SNVDP}"""
-    L = r.randint(4, 12)
-    ref = "".join(r.choice(BASES) for _ in range(L))
-    n_snv = 0 if shape == "no-snv" else r.randint(1, min(4, L))
+def fmt3(x):
+    return f"{x:.3f}".rstrip("0").rstrip(".") or "0"
+
+
+def gen_record(r, shape, samples, ploidy, fields, pos, idx, chrom="chr1"):
+    """one haplotype record line of the given shape; `fields` subset of {ACP, AFP, SNVDP}
+
+    shapes added in round 5: "noa" (REFMASKED, ALT '.', every GT all '.', ACP/AFP 0 or '.', FILTER NOA), "partial"
+    ('.' alleles at any position of the GT of several samples), "acp-dot" / "afp-dot" ('.' inside one posterior field
+    while the other is complete), "alpha" (alphabet ACGTN*, at most four symbols per site), "five" (one site carries
+    five or six symbols), "wide" (5..8 SNVs and 5..8 ALTs), "big" (GT and ACP concentrated on one ALT haplotype, used
+    with many samples / high ploidy)."""
+    six = shape in ("alpha", "five") or (shape in ("partial", "noa", "acp-dot", "afp-dot", "wide", "big", "dots") and r.random() < 0.25)
+    wide = shape == "wide" or (shape in ("alpha", "five", "big", "partial") and r.random() < 0.3)
+    L = r.randint(8, 16) if wide else r.randint(4, 12)
+    ref = "".join(("N" if (six and r.random() < 0.15) else r.choice(BASES)) for _ in range(L))
+    if shape == "no-snv":
+        n_snv = 0
+    elif wide:
+        n_snv = r.randint(5, min(8, L))
+    else:
+        n_snv = r.randint(1, min(4, L))
     snvpos = sorted(r.sample(range(1, L + 1), n_snv))
-    n_alt = 0 if shape in ("no-snv", "no-alt") else r.randint(1, 4)
+    if shape in ("no-snv", "no-alt", "noa"):
+        n_alt = 0
+    elif shape == "five":
+        n_alt = r.randint(4, 7)
+    elif wide:
+        n_alt = r.randint(5, 8)
+    else:
+        n_alt = r.randint(1, 4)
+    rich = r.choice(snvpos) if (shape == "five" and snvpos) else None
+    # the symbols besides the REF base that the listed haplotypes may carry at a site: three (<= 4 symbols per site),
+    # all five at the rich site of the "five" shape
+    other = {}
+    for p in snvpos:
+        o = [b for b in (ALPHA6 if six else BASES) if b != ref[p - 1]]
+        r.shuffle(o)
+        other[p] = o if p == rich else o[:3]
     alts = []
     mono = set()
     if shape == "mono" and snvpos:
@@ -278,91 +324,211 @@ def gen_record(r, shape, samples, ploidy, fields, pos, idx):
             if p in mono:
                 continue
             if r.random() < 0.55:
-                h[p - 1] = r.choice([b for b in BASES if b != ref[p - 1]])
+                h[p - 1] = r.choice(other[p])
         h = "".join(h)
         if h != ref and h not in alts:
             alts.append(h)
+    if rich is not None and alts:
+        # the first ALTs carry pairwise different symbols at the rich site: REF + 4 or 5 further symbols
+        k = min(len(alts), r.choice([4, 5]))
+        forced = []
+        for i in range(k):
+            h = list(alts[i])
+            h[rich - 1] = other[rich][i]
+            forced.append("".join(h))
+        merged = []
+        for h in forced + alts[k:]:
+            if h not in merged:
+                merged.append(h)
+        alts = merged
     # every site that is not meant to be monomorphic carries an alternative base in some ALT
     for p in snvpos:
-        if alts and p not in mono and all(h[p - 1] == ref[p - 1] for h in alts):
+        if alts and p not in mono and p != rich and all(h[p - 1] == ref[p - 1] for h in alts):
             for _ in range(20):
                 j = r.randrange(len(alts))
                 h = list(alts[j])
-                h[p - 1] = r.choice([b for b in BASES if b != ref[p - 1]])
+                h[p - 1] = r.choice(other[p])
                 h = "".join(h)
                 if h not in alts:
                     alts[j] = h
                     break
-    if shape not in ("no-snv", "no-alt") and not alts:
+    if shape not in ("no-snv", "no-alt", "noa") and not alts:
         # every SNV monomorphic: make the shape explicit (one ALT differing outside SNVPOS is not a haplotype VCF) -> no ALT
         shape = "no-alt"
+    if shape == "five" and not any(len({h[p - 1] for h in [ref] + alts}) > 4 for p in snvpos):
+        shape = "alpha"
     n_hap = 1 + len(alts)
     info = []
-    if shape == "refmasked" or (shape in ("dots", "normal") and r.random() < 0.15):
+    if shape in ("refmasked", "noa") or (shape in ("dots", "normal", "partial", "alpha", "five", "wide", "big") and r.random() < 0.15):
         info.append("REFMASKED")
     info += [f"END={pos + L - 1}", f"NVAR={n_snv}", "SNVPOS=" + (",".join(map(str, snvpos)) if snvpos else ".")]
-    fmt = ["GT", "SQ"] + [f for f in ("ACP", "AFP", "SNVDP") if f in fields]
+    need = set(fields) | ({"ACP", "AFP"} if shape in BOTH_FIELDS else set())
+    fmt = ["GT", "SQ"] + [f for f in ("ACP", "AFP", "SNVDP") if f in need]
     cols = []
+    lo = 1 if "REFMASKED" in info and n_hap > 1 else 0
+    dom = r.randint(max(lo, min(1, n_hap - 1)), n_hap - 1)      # "big": the haplotype most copies are of (an ALT when there is one)
+    noa_text = r.choice(["0", "0", "."])
     for s in samples:
         p = ploidy[s]
-        lo = 1 if "REFMASKED" in info and n_hap > 1 else 0
-        if shape == "af0":
+        if shape in ("af0", "noa"):
             gt = [None] * p
+        elif shape == "big":
+            gt = sorted(dom if r.random() < 0.85 else r.randint(lo, n_hap - 1) for _ in range(p))
+            if r.random() < 0.1:
+                gt[r.randrange(p)] = None
         else:
             called = sorted(r.randint(lo, n_hap - 1) for _ in range(p))
             k = 0
             if shape == "dots" or r.random() < 0.15:
                 k = r.choice([1, 1, p])
             gt = called[:p - k] + [None] * k
+            if shape == "partial" and r.random() < 0.75:
+                # '.' at any position, any number of them
+                gt = list(called)
+                for j in r.sample(range(p), r.randint(1, p)):
+                    gt[j] = None
         w = [r.random() if h >= lo else 0.0 for h in range(n_hap)]
+        if shape == "big":
+            w[dom] += 20.0
         tot = sum(w) or 1.0
         n_keep = n_hap - (1 if (shape == "short-acp" and n_hap > 1) else 0)
+        missing_sq = shape == "af0" or (shape == "noa" and r.random() < 0.7)
         vals = {"GT": "/".join("." if a is None else str(a) for a in gt),
-                "SQ": "." if shape == "af0" else str(r.randint(0, 60))}
+                "SQ": "." if missing_sq else str(r.randint(0, 60))}
         if shape == "af0":
             vals.update({"ACP": ".", "AFP": "."})
+        elif shape == "noa":
+            vals.update({"ACP": noa_text, "AFP": noa_text})
         elif shape == "zero-acp" and r.random() < 0.5:
             vals.update({"ACP": ",".join(["0"] * n_hap), "AFP": ",".join(["0"] * n_hap)})
         else:
-            fmt3 = lambda x: (f"{x:.3f}".rstrip("0").rstrip(".") or "0")
-            vals["ACP"] = ",".join(fmt3(x / tot * p) for x in w[:n_keep])
-            vals["AFP"] = ",".join(fmt3(x / tot) for x in w[:n_keep])
+            acp = [fmt3(x / tot * p) for x in w[:n_keep]]
+            afp = [fmt3(x / tot) for x in w[:n_keep]]
+            if shape in BOTH_FIELDS and r.random() < 0.8:
+                tgt = acp if shape == "acp-dot" else afp
+                mode = r.choice(["one", "one", "all", "single"])
+                if mode == "one":
+                    tgt[r.randrange(len(tgt))] = "."
+                elif mode == "all":
+                    tgt[:] = ["."] * len(tgt)
+                else:
+                    tgt[:] = ["."]
+            vals["ACP"] = ",".join(acp)
+            vals["AFP"] = ",".join(afp)
         vals["SNVDP"] = ",".join(str(r.randint(0, 40)) for _ in snvpos) if snvpos else "."
         cols.append(":".join(vals[k] for k in fmt))
-    filt = "AF0" if shape == "af0" else "PASS"
+    filt = {"af0": "AF0", "noa": "NOA"}.get(shape, "PASS")
     line = "\t".join([
-        "chr1", str(pos), "." if r.random() < 0.1 else f"rec{idx}", ref, ",".join(alts) if alts else ".", ".", filt,
+        chrom, str(pos), "." if r.random() < 0.1 else f"rec{idx}", ref, ",".join(alts) if alts else ".", ".", filt,
         ";".join(info), ":".join(fmt)] + cols)
     return line, shape
 
 
-def gen_file(r, n_rec, shapes=None, fields=None):
-    n_s = r.randint(1, 4)
+SIZES = {
+    None: ((1, 4), [1, 2, 2, 4, 4, 6]),
+    "some": ((5, 9), [2, 4, 6, 8, 10]),
+    "big100": ((8, 12), [12, 16, 20]),              # AC / ACP totals of a few hundred
+    "big1000": ((28, 36), [48, 64]),                # ... above one thousand
+}
+
+
+def gen_file(r, n_rec, shapes=None, fields=None, size=None):
+    (lo, hi), pl = SIZES[size]
+    n_s = r.randint(lo, hi)
     samples = [f"S{i + 1}" for i in range(n_s)]
-    ploidy = {s: r.choice([1, 2, 2, 4, 4, 6]) for s in samples}
+    ploidy = {s: r.choice(pl) for s in samples}
     if fields is None:
         fields = {f for f in ("ACP", "AFP", "SNVDP") if r.random() < 0.5}
     lines, shp = [], []
     pos = 10
+    chrom = "chr1"
+    # the records of a file may continue on a second contig
+    switch = r.randint(1, n_rec - 1) if (n_rec >= 2 and r.random() < 0.5) else None
     for i in range(n_rec):
+        if i == switch:
+            chrom, pos = "chr2", r.randint(1, 30)
         shape = r.choice(SHAPES) if shapes is None else shapes[i % len(shapes)]
-        line, shape = gen_record(r, shape, samples, ploidy, fields, pos, i)
+        line, shape = gen_record(r, shape, samples, ploidy, fields, pos, i, chrom)
         lines.append(line)
         shp.append(shape)
-        pos += r.randint(15, 40)
+        pos += r.randint(20, 45)
     text = HEADER + "#CHROM\tPOS\tID\tREF\tALT\tQUAL\tFILTER\tINFO\tFORMAT\t" + "\t".join(samples) + "\n" + "\n".join(lines) + "\n"
     return text, shp
+
+
+def header_only(r):
+    n_s = r.randint(1, 5)
+    return HEADER + "#CHROM\tPOS\tID\tREF\tALT\tQUAL\tFILTER\tINFO\tFORMAT\t" + "\t".join(f"S{i + 1}" for i in range(n_s)) + "\n"
 
 
 # --------------------------------------------------------------------------------------
 # one atomize run
 # --------------------------------------------------------------------------------------
 
+def five_sites(d):
+    """0-based indices (into SNVPOS) of the sites at which the listed haplotypes carry more than four symbols"""
+    if not d["snvpos"]:
+        return []
+    haps = [d["ref"]] + (d["alts"] or [])
+    return [k for k, p in enumerate(d["snvpos"]) if all(p <= len(h) for h in haps) and len({h[p - 1] for h in haps}) > 4]
+
+
+def usable_counts(s):
+    return any(v is not None and all(x is not None for x in v) for v in (s["acp"], s["afp"]))
+
+
+def record_classes(d):
+    """input classes of one decoded record (evidence histogram)"""
+    out = []
+    haps = [d["ref"]] + (d["alts"] or [])
+    if any(c in "N*" for h in haps for c in h):
+        out.append("alphabet:N-or-*")
+    if d["snvpos"]:
+        m = max(len({h[p - 1] for h in haps}) for p in d["snvpos"] if all(p <= len(h) for h in haps))
+        out.append(f"site-symbols:{m if m < 5 else '5+'}")
+        if len(d["snvpos"]) > 4:
+            out.append("snvs>4")
+    if len(haps) > 5:
+        out.append("alts>4")
+    gts = [s["gt"] for s in d["samples"]]
+    if any(None in g and any(a is not None for a in g) for g in gts):
+        out.append("gt:partially-called")
+    if any(None in g and g[-1] is not None for g in gts):
+        out.append("gt:dot-not-last")
+    if gts and all(all(a is None for a in g) for g in gts):
+        out.append("gt:all-samples-missing" + ("+alts" if d["alts"] else "+no-alt"))
+    if len(gts) > 4:
+        out.append("samples>4")
+    if any(len(g) > 6 for g in gts):
+        out.append("ploidy>6")
+    dot = lambda v: v is not None and any(x is None for x in v)
+    full = lambda v: v is not None and all(x is not None for x in v)
+    if any(dot(s["acp"]) and full(s["afp"]) for s in d["samples"]):
+        out.append("counts:acp-dot+afp-complete")
+    if any(dot(s["afp"]) and full(s["acp"]) for s in d["samples"]):
+        out.append("counts:afp-dot+acp-complete")
+    return out
+
+
+def split_five(diff, n_alts):
+    """differences of a line at a site with more than four symbols: (attributable to the four allele slots of
+    get_sample_snv_ACP = ACP / DS rows, everything else)"""
+    if n_alts < 4:
+        return [], diff
+    slots = [x for x in diff if x.startswith("ACP ") or re.match(r"^sample [0-9]+ DS ", x)]
+    return slots, [x for x in diff if x not in slots]
+
+
 def classify_crash(d, err):
     """signature of a crash: the exception together with the shape predicate of the record that triggered it"""
     haps = [d["ref"]] + (d["alts"] or [])
     if "has no len()" in err and d["alts"] is None and d["snvpos"]:
         return SIG_F8
+    if "IndexError" in err and five_sites(d) and any(usable_counts(s) for s in d["samples"]):
+        # a 5th symbol at a site while posterior counts are given; F9's crash (an empty allele axis) keeps its own signature
+        mono = any(len({h[p - 1] for h in haps}) == 1 for p in d["snvpos"])
+        if not (mono and "size 0" in err):
+            return SIG_FIVE
     if "IndexError" in err and d["snvpos"] and any(len({h[p - 1] for h in haps}) == 1 for p in d["snvpos"]):
         return SIG_F9
     if "TypeError" in err and "NoneType" in err and any(
@@ -377,12 +543,35 @@ class Atomizer:
         self.chk, self.drv, self.work = chk, drv, work
         self.n = 0
 
-    def run(self, text, origin, shapes=None):
+    def run(self, text, origin, shapes=None, gz=False):
         chk = self.chk
         self.n += 1
         path = S.write_text(os.path.join(self.work, f"in{self.n}.vcf"), text)
+        if gz:
+            try:
+                path = S.bgzip_tabix_vcf(path)
+            except Exception:           # noqa: BLE001 - an index is not needed by atomize (e.g. a file without records)
+                import pysam
+                pysam.tabix_compress(path, path + ".gz", force=True)
+                path = path + ".gz"
+        chk.count("input:bgzip" if gz else "input:text")
         out, code, err = S.run_program(["mchap", "atomize", path])
         _, recs = S.parse_vcf_text(text)
+        if not recs:
+            # a haplotype VCF without records: a header, no record, exit 0
+            chk.count("input:header-only")
+            chk.case({"header-only": text.split("\n")[-2], "gz": gz}, False)
+            case = {"origin": origin, "input": text[-600:], "gz": gz}
+            try:
+                out_header, out_recs = S.parse_vcf_text(out)
+            except ValueError as e:
+                out_header, out_recs = [], [str(e)]
+            names_in = S.vcf_sample_names([l for l in text.split("\n") if l.startswith("#")])
+            if code != 0 or out_recs or not out_header or S.vcf_sample_names(out_header) != names_in:
+                chk.violation(f"atomize of a haplotype VCF without records: exit {code} {err[:200]}, {len(out_recs)} line(s) printed, "
+                              f"sample columns {S.vcf_sample_names(out_header)} (want a header with {names_in}, no record, exit 0)",
+                              case, "C20/atomize/header-only")
+            return
         try:
             out_header, out_recs = S.parse_vcf_text(out)
         except ValueError as e:
@@ -398,6 +587,9 @@ class Atomizer:
         for i, (rec, d, ans) in enumerate(zip(recs, decs, answers)):
             shape = shapes[i] if shapes else origin
             chk.count(f"shape:{shape}")
+            for c in record_classes(d):
+                chk.count(c)
+            five = five_sites(d)
             haps = [d["ref"]] + (d["alts"] or [])
             shared = bool(d["snvpos"]) and any(len({h[p - 1] for h in haps}) < len(haps) for p in d["snvpos"])
             nontriv = bool(d["snvpos"]) and len(d["snvpos"]) >= 2 and len(haps) >= 3 and shared and (
@@ -418,9 +610,13 @@ class Atomizer:
                 if len(out_recs) != cursor:
                     chk.disagreement("atomize printed lines after the record the model aborts on", {**case, "printed": len(out_recs), "expected": cursor})
                 if code != 0:
-                    chk.count(f"crash:{classify_crash(d, err)}")
-                    chk.violation(f"mchap atomize raised on a record shape the calling programs can produce: {err[:300]}",
-                                  {**case, "error": err, "expected_lines": len(want)}, classify_crash(d, err))
+                    sig = classify_crash(d, err)
+                    chk.count(f"crash:{sig}")
+                    what = "mchap atomize raised on a record shape the calling programs can produce"
+                    if sig == SIG_FIVE:
+                        what = ("mchap atomize raised on a record with posterior counts and a site carrying more than four symbols "
+                                "(four allele slots in get_sample_snv_ACP)")
+                    chk.violation(f"{what}: {err[:300]}", {**case, "error": err, "expected_lines": len(want)}, sig)
                 break
             model_lines = [] if ans == "none" else [parse_model_line(x) for x in ans.split(" ; ")]
             got = out_recs[cursor:cursor + len(model_lines)]
@@ -432,6 +628,12 @@ class Atomizer:
                 break
             for g, m in zip(got, model_lines):
                 diff = compare_line(g, m)
+                if five:
+                    # ACP / DS rows of a site with more than four symbols: the model states their R / A length, the code
+                    # slices a four-slot array; that deviation is reported by the oracle below under SIG_FIVE
+                    slots, diff = split_five(diff, len(m["alts"]))
+                    if slots:
+                        chk.count("five-symbol-site:model-row-not-compared")
                 pq = [s.get("PQ") for s in g["samples"]]
                 if pq != ["." if x is None else str(x) for x in m["pq"]]:
                     diff.append(f"PQ {pq} != {m['pq']}")
@@ -447,9 +649,21 @@ class Atomizer:
                     chk.violation(f"no line at POS + SNVPOS - 1 = {w['pos']}", {**case, "expected": str(w)[:500]}, "C20/atomize/line-missing")
                     continue
                 diff = compare_line(g, w)
+                if g["CHROM"] != rec["CHROM"]:
+                    diff.insert(0, f"CHROM {g['CHROM']} != {rec['CHROM']}")
+                slots, diff = split_five(diff, len(w["alts"]))
+                if slots:
+                    chk.count("five-symbol-site:short-rows")
+                    chk.violation("INFO/ACP / FORMAT/DS of a site with more than four symbols do not carry one value per allele "
+                                  "(four allele slots in get_sample_snv_ACP): " + "; ".join(slots[:3]),
+                                  {**case, "line": g["line"]}, SIG_FIVE)
                 if diff:
                     chk.violation("atomize line differs from the per-SNV projection: " + "; ".join(diff[:3]),
                                   {**case, "line": g["line"]}, "C20/atomize/projection")
+                for key, vals in (("ac", w["ac"]), ("acp", w["acp"] or [])):
+                    top = max(vals, default=0)
+                    if top >= 100:
+                        chk.count(f"{key}-total>={1000 if top >= 1000 else 100}")
             for w in mono:
                 # the statement allows omitting such a site; when it is printed it carries ALT '.' and the projection
                 g = printed.get(w["pos"])
@@ -458,6 +672,8 @@ class Atomizer:
                     continue
                 chk.count("monomorphic-site-printed")
                 diff = compare_line(g, w)
+                if g["CHROM"] != rec["CHROM"]:
+                    diff.insert(0, f"CHROM {g['CHROM']} != {rec['CHROM']}")
                 if diff:
                     chk.violation("line of a site without alternative base differs from the projection: " + "; ".join(diff[:3]),
                                   {**case, "line": g["line"]}, "C20/atomize/projection")
@@ -520,6 +736,76 @@ def unit_indices(chk, drv, r, n):
             chk.violation("site alleles are not numbered by first appearance with REF first", {"column": col, "impl": impl, "alleles": alleles}, "C20/atomize/numbering")
 
 
+def pipeline_variants(chk, at, work, k, tier):
+    """atomize on what the programs write in other modes than the default: a two-contig dataset with up to 7 SNVs per locus
+    and deeper coverage (more ALTs); assemble --report AFP ACP SNVDP; call / call-exact with --prior-frequencies AFP
+    --filter-input-haplotypes (ALTs and SNVPOS shrink, AF0 / NOA records possible); call-pedigree (FORMAT/PEDERR);
+    assemble and call with --sample-pool (pool ploidies 4 and 6)."""
+    sub = C.rng(f"{PROP}:wide{k}")
+    ds = S.make_dataset(sub, os.path.join(work, f"wide{k}"), n_samples=4 + k % 2, n_loci=4 + k % 3, ploidies=(2, 4), max_snvs=7 + k % 2,
+                        features={"nodepth"}, depth=(10, 24), n_contigs=2)
+    chk.count("dataset:two-contigs")
+    outputs = []
+
+    def prog(tag, argv):
+        out, code, err = S.run_program(argv)
+        chk.count(f"run:{tag}")
+        if code != 0:
+            chk.notes.append(f"{tag} failed on the wide dataset {k}: {err[:200]} (C07's business)")
+            chk.count(f"run-failed:{tag}")
+            return None
+        outputs.append((tag, out))
+        return out
+
+    asm = prog("assemble --report AFP ACP SNVDP", ds.assemble_argv(*MCMC, "--report", "AFP", "ACP", "SNVDP"))
+    if asm is None:
+        return
+    gz = S.bgzip_tabix_vcf(S.write_text(os.path.join(work, f"wide-asm{k}.vcf"), asm))
+    thr = ["AFP>0.05", "AFP>=0.2", "AFP>0.6"][k % 3]
+    prior = ["--prior-frequencies", "AFP", "--filter-input-haplotypes", thr]
+    prog("call --prior-frequencies --filter-input-haplotypes", ds.call_argv("call", gz, *MCMC, *prior, "--report", "ACP", "SNVDP"))
+    prog("call-exact --prior-frequencies --filter-input-haplotypes", ds.call_argv("call-exact", gz, *prior, "--report", "AFP"))
+    # thresholds that remove most / all haplotypes (the reference included): records with FILTER NOA, every GT all '.'
+    for thr2 in ("AFP>=0.2", "AFP>0.6"):
+        if thr2 != thr:
+            prog(f"call-exact --filter-input-haplotypes {thr2}", ds.call_argv("call-exact", gz, *prior[:3], thr2, "--report", "AFP", "ACP"))
+    # pedigree: parents precede their children, '.' for an unknown parent; gamete ploidies given explicitly (mixed ploidies)
+    lines, taus = [], []
+    for i, s in enumerate(ds.samples):
+        cands = ds.samples[:i]
+        p1 = sub.choice(cands) if cands and sub.random() < 0.8 else "."
+        p2 = sub.choice(cands) if cands and sub.random() < 0.6 else "."
+        lines.append(f"{s}\t{p1}\t{p2}")
+        taus.append(f"{s}\t{ds.ploidy[s] // 2}\t{ds.ploidy[s] - ds.ploidy[s] // 2}")
+    ped = S.write_text(os.path.join(work, f"wide-ped{k}.txt"), "\n".join(lines) + "\n")
+    tau = S.write_text(os.path.join(work, f"wide-tau{k}.txt"), "\n".join(taus) + "\n")
+    prog("call-pedigree", ds.call_argv("call-pedigree", gz, *MCMC, "--sample-parents", ped, "--gamete-ploidy", tau,
+                                       *(prior[:2] if k % 2 else []), "--report", "AFP", "ACP"))
+    # pools: the first two samples and the rest; pool ploidies 4 and 6
+    pool = S.write_text(os.path.join(work, f"wide-pool{k}.txt"),
+                        "".join(f"{s}\t{'POOL1' if i < 2 else 'POOL2'}\n" for i, s in enumerate(ds.samples)))
+    pool_ploidy = S.write_text(os.path.join(work, f"wide-pool-ploidy{k}.txt"), "POOL1\t4\nPOOL2\t6\n")
+
+    def pooled(argv):
+        argv = list(argv)
+        argv[argv.index("--ploidy") + 1] = pool_ploidy
+        return argv + ["--sample-pool", pool]
+    prog("assemble --sample-pool", pooled(ds.assemble_argv(*MCMC, "--report", "ACP", "SNVDP")))
+    prog("call --sample-pool", pooled(ds.call_argv("call", gz, *MCMC, "--report", "AFP")))
+    for j, (tag, text) in enumerate(outputs):
+        _, recs = S.parse_vcf_text(text)
+        if len({x["CHROM"] for x in recs}) > 1:
+            chk.count("pipeline-file:records-on-two-contigs")
+        if any("PEDERR" in x["FORMAT"] for x in recs):
+            chk.count("pipeline-file:FORMAT/PEDERR")
+        for x in recs:
+            if x["FILTER"] != "PASS":
+                chk.count(f"pipeline-record:FILTER={x['FILTER']}")
+        at.run(text, f"{tag}-output(whole file)", gz=(j % 2 == 0))
+        for one in single_record_files(text):
+            at.run(one, f"{tag}-output")
+
+
 def run(tier, replay=None):
     chk = C.Check(PROP, tier, MODULE, THEOREMS, RULE, exe="driver_vcf", assumptions=[
         "pysam decoding of the input (Float fields as float32), pandas / numpy text formatting of the output are outside the model; "
@@ -536,13 +822,35 @@ def run(tier, replay=None):
         n_files = {"warm": 4, "quick": 120, "thorough": 1200}[tier]
         unit_indices(chk, drv, r, {"warm": 10, "quick": 300, "thorough": 3000}[tier])
         # minimal reproducers of the candidate defects, then every shape on its own, then mixed files
-        for shape in ["no-alt", "mono", "af0", "normal", "dots", "no-snv", "refmasked", "short-acp", "zero-acp"]:
+        for shape in ["no-alt", "mono", "af0", "normal", "dots", "no-snv", "refmasked", "short-acp", "zero-acp",
+                      "noa", "partial", "acp-dot", "afp-dot", "alpha", "wide"]:
             for fields in ([], ["ACP", "SNVDP"], ["AFP"]) if tier != "warm" else ([],):
                 text, shp = gen_file(r, 1, [shape], fields=set(fields))
                 at.run(text, "generated", shp)
         for i in range(n_files):
-            text, shp = gen_file(r, 1 if r.random() < 0.7 else r.randint(2, 5))
-            at.run(text, "generated", shp)
+            text, shp = gen_file(r, 1 if r.random() < 0.7 else r.randint(2, 5), size=None if r.random() < 0.85 else "some")
+            at.run(text, "generated", shp, gz=r.random() < 0.2)
+        # '.' alleles in every shape of GT / posterior field, with both posterior fields and the depths present
+        for i in range({"warm": 1, "quick": 12, "thorough": 120}[tier]):
+            text, shp = gen_file(r, r.randint(1, 3), ["partial", "noa", "acp-dot", "afp-dot", "af0"][i % 5:] + ["partial"],
+                                 fields={"ACP", "AFP", "SNVDP"} if i % 2 == 0 else {"ACP", "AFP"}, size=[None, "some"][i % 2])
+            at.run(text, "generated:dots", shp, gz=(i % 4 == 3))
+        # many samples / high ploidy: AC and ACP totals of hundreds and thousands
+        for i in range({"warm": 1, "quick": 8, "thorough": 60}[tier]):
+            size = "big100" if (i % 2 == 0 or tier == "warm") else "big1000"
+            text, shp = gen_file(r, r.randint(1, 2), ["big"], fields=[{"ACP", "SNVDP"}, {"AFP"}, {"ACP", "AFP"}, set()][i % 4], size=size)
+            chk.count(f"size:{size}")
+            at.run(text, f"generated:{size}", shp, gz=(i % 4 == 2))
+        # input without records (plain and bgzipped)
+        for i in range({"warm": 1, "quick": 4, "thorough": 20}[tier]):
+            at.run(header_only(r), "generated:header-only", gz=(i % 2 == 1))
+        # the dedicated stream of sites with five / six symbols (A, C, G, T, N, *): one record per file; every finding
+        # that stems from the four allele slots of get_sample_snv_ACP carries SIG_FIVE and nothing else
+        if FIVE_STREAM:
+            five_fields = [["ACP"], ["AFP"], [], ["ACP", "AFP", "SNVDP"], ["SNVDP"]]
+            for i in range({"warm": 2, "quick": 20, "thorough": 200}[tier]):
+                text, shp = gen_file(r, 1, ["five"], fields=set(five_fields[i % 5]), size=None if i % 3 else "some")
+                at.run(text, "generated:five-symbols", shp)
         # real pipeline outputs
         n_ds = {"warm": 1, "quick": 2, "thorough": 6}[tier]
         for k in range(n_ds):
@@ -570,6 +878,8 @@ def run(tier, replay=None):
                 at.run(text, f"{prog}-output(whole file)")
                 for one in single_record_files(text):
                     at.run(one, f"{prog}-output")
+        for k in range({"warm": 0, "quick": 1, "thorough": 4}[tier]):
+            pipeline_variants(chk, at, work, k, tier)
         chk.extra["atomize_runs"] = at.n
     finally:
         shutil.rmtree(work, ignore_errors=True)
